@@ -424,7 +424,7 @@ def concat(files, out):
 
 # ---------------------------------------------------------------------------------------------------
 # trace validation (TLC as the oracle)
-def validate(files, module, cfg, jobs=None, tag='val', invariants_are_drift=True, xmx='3g'):
+def validate(files, module, cfg, jobs=None, tag='val', invariants_are_drift=True, xmx='3g', timeout=900):
     """Validate every trace file against the trace specification `module`. Returns list of findings:
     dicts {file, kind: 'rejected'|'invariant'|'monviol'|'error', line, text}"""
     jobs = jobs or NCPU
@@ -432,7 +432,7 @@ def validate(files, module, cfg, jobs=None, tag='val', invariants_are_drift=True
     stats = {'states': 0, 'wall': 0.0}
 
     def one(f):
-        r = run_tlc(module, cfg, workers=1, env={'TRACE': f}, xmx=xmx, tag=tag, timeout=900)
+        r = run_tlc(module, cfg, workers=1, env={'TRACE': f}, xmx=xmx, tag=tag, timeout=timeout)
         return f, r
 
     with ThreadPoolExecutor(max_workers=jobs) as ex:
